@@ -91,6 +91,7 @@ Model433 == ModelTy.e433
 ShapeTags == (IF \E a \in rule.ok415 \ rule.ok416 : \E c \in Below(val, a) : IsC(kind, c)
               THEN {"const-below-struct-cycle"} ELSE {})
              \cup (IF Model433 # {} THEN {"ptrlen-before-const"} ELSE {})
+             \cup (IF \E p \in ptr : ConstPtrArray(kind, ptr, p) THEN {"constptr-array"} ELSE {})
              \cup (IF APtrToUnfounded(kind, ptr, rule.depth) THEN {"ptr-to-unfounded-struct"} ELSE {})
 
 PairsOf(E) == SetToSortSeq(E, LAMBDA p, q : p[1] < q[1] \/ (p[1] = q[1] /\ p[2] < q[2]))
